@@ -354,8 +354,9 @@ class SED(object):
             return np.repeat(self.flux[0, :], len(apertures)).reshape(self.n_wav, len(apertures))
 
         # Work in the units of the SED apertures (bare numbers are in AU)
+        # (converted in double precision, also for a single-precision request)
         if isinstance(apertures, u.Quantity):
-            apertures = apertures.to(self.apertures.unit).value
+            apertures = apertures.astype(float).to(self.apertures.unit).value
         else:
             apertures = (np.asarray(apertures, dtype=float) * u.au).to(self.apertures.unit).value
 
@@ -396,7 +397,7 @@ class SED(object):
         # written into an integer array, and the caller's array is left alone)
         # (bare numbers are in AU)
         if isinstance(apertures, u.Quantity):
-            apertures = apertures.to(u.au).value
+            apertures = apertures.astype(float).to(u.au).value
         apertures = np.array(apertures, dtype=float)
 
         # If any apertures are larger than the defined max, reset to max
